@@ -55,6 +55,12 @@ pub fn programs() -> Vec<P> {
         vec![Input::Int(4)], vec![], "done",
         vec![s("h0"), s("h1"), Emit::Int(4), s("h2"), Emit::Int(41), s("s"), s("h3"), Emit::Int(3), Emit::Float(2.5f64.to_bits()), Emit::Bool(true), Emit::Int(4), Emit::Int(41), s("s<41>"), Emit::Int(9)],
         "", None, None, false);
+    add("host-through-function-values", "let f2 = vh_h2\nlet c = f2(41, \"s\")\nfn ap3(f: (int, float, bool) -> int, a: int) -> int = f(a, 2.5, true)\nlet d = ap3(vh_h3, 3)\nlet f1 = vh_h1\nlet b = f1(4)\nlet f0 = vh_h0\nlet a = f0()\nlet fs = [vh_h1, vh_h1]\nlet g1 = fs[1]\nlet e = g1(7)\nvh_emit_str(c)\nvh_emit_int(d)\nvh_emit_int(b)\nvh_emit_int(a)\nvh_emit_int(e)\n",
+        vec![Input::Int(4)], vec![], "done",
+        vec![s("h2"), Emit::Int(41), s("s"), s("h3"), Emit::Int(3), Emit::Float(2.5f64.to_bits()), Emit::Bool(true), s("h1"), Emit::Int(4), s("h0"), s("h1"), Emit::Int(7), s("s<41>"), Emit::Int(9), Emit::Int(41), Emit::Int(4), Emit::Int(71)],
+        "", None, None, false);
+    add("host-void-through-function-value", "let e = vh_emit_int\nlet r = 10 + {\n  e(7)\n  5\n}\nvh_emit_int(r)\nvar k = 0\nwhile k < 3 {\n  e(k)\n  k = k + 1\n}\nr + 1\n", vec![], vec![], "done",
+        i(&[7, 15, 0, 1, 2]), "", Some(Top::Int(16)), None, false);
     add("host-in-expression", "let r = vh_h1(1) + vh_h1(2) * vh_h1(3)\nvh_emit_int(r)\n", vec![], vec![], "done",
         vec![s("h1"), Emit::Int(1), s("h1"), Emit::Int(2), s("h1"), Emit::Int(3), Emit::Int(11 + 21 * 31)], "", None, None, false);
     add("string-compare-long", "let a = \"abcdefghij\" .. \"klmnopqrst\"\nlet b = \"abcdefghij\" .. \"klmnopqrsu\"\nvh_emit_bool(a < b)\nvh_emit_bool(a == b)\nvh_emit_bool(a >= b)\nvh_emit_str(a .. b)\n", vec![], vec![], "done",
